@@ -87,7 +87,7 @@ P('C02', claimed=True, needs_driver=True, level='other',
               'independent SCgf-2 reader.'),
   unreached=['acceptance by a real scsynth'])
 
-P('C03', claimed=True, level='other', contracts=['base_utils', 'synth_ugen', 'synth_multinew', 'synth_outputs'], drivers=['vf.drivers.C03'],
+P('C03', claimed=True, level='other', contracts=['base_utils', 'synth_ugen', 'synth_multinew', 'synth_outputs', 'synth_channellist'], drivers=['vf.drivers.C03'],
   level_text=('The generic expansion itself, SynthObject._multi_new, is under contract for calls with 1-4 arguments of '
               'arbitrary values and list lengths: without a (non-empty) list exactly one unit via _new1; otherwise '
               'exactly one recursive call per channel i of the longest list with every list argument replaced by '
@@ -98,6 +98,10 @@ P('C03', claimed=True, level='other', contracts=['base_utils', 'synth_ugen', 'sy
               'nested list by its own replacement, and nothing else (array-store model, quantified invariant). '
               'The wrap-around law of the list helper every expansion rests on (utils.wrap_extend: length n, '
               'element i is lst[i mod len]; utils.extend) is proved for all lists and positions. '
+              'ChannelList._multichannel_perform (what every convenience method of a channel list goes through): the '
+              'channels and the arguments are flopped together once, EVERY row is handled (nested list -> the same method '
+              'on it with the row\'s OWN arguments, otherwise the selector performed on the item with them), results '
+              'collected in row order and returned as a channel list. '
               'The wrap-and-zip law is checked as a run-time contract on the real constructors: every '
               'directly delegating constructor of every installed unit-generator class (found by an AST '
               'scan at check time) x argument shapes, every operator and ChannelList convenience method, '
